@@ -88,6 +88,14 @@ func nextPacket(r io.Reader) (*parser.Packet, error) {
 			expectedLen = int(binary.BigEndian.Uint64(header[:]))
 			state = ReadPayload
 		case ReadPayload:
+			// The announced length is attacker controlled: refuse it
+			// before anything is allocated for it.
+			if expectedLen < 0 {
+				return nil, ErrLimitReached
+			}
+			if lr, ok := r.(*limitedReader); ok && lr.limit > 0 && int64(expectedLen) > lr.limit {
+				return nil, ErrLimitReached
+			}
 			return parser.DecodeWithLen(r, isBinary, expectedLen)
 		}
 	}
